@@ -427,6 +427,48 @@ def check_refill_threshold(ctx, F):
         ctx.bad('R4', role, ANS, 'decode_symbol refills while %s; from_binary fills while %s; read_initial_state fills while %s' % (sorted(nd), sorted(nf), sorted(nr)), key=key, loc=rules.loc(fb))
 
 
+def check_import_read_errors(ctx, F):
+    """A backend read that *fails* while the head is assembled ends the import with an error: on no path that goes on (another
+    iteration, an Ok result) is the outcome of a word read decided to be `Err`.  A loop written `while let Ok(Some(word)) = read()`
+    treats a failed read like the end of the data and hands out a coder whose head is too small for its bulk, which then
+    decodes garbage without any error."""
+    fb, helper = anchors.ans_import_loops(F)
+    bodies = [b for b in (helper, fb) if b is not None]
+    n = 0
+    for b in bodies:
+        ev, paths = rules.evaluate(b)
+        key = 'R2/import-read-error-propagates/' + b.defpath
+        role = 'a failed word read ends the import with an error'
+        ctx.touch(b)
+        if not paths:
+            ctx.unresolved('R2', role, b.defpath, 'not evaluated', key=key)
+            continue
+        is_read = lambda x: isinstance(x, tuple) and x and x[0] == 'call' and str(x[1]).endswith(('ReadWords::read', 'FnMut::call_mut', 'FnOnce::call_once', 'Iterator::next'))
+        bad = None
+        n_reads = 0
+        for r in paths:
+            goes_on = r.end == 'backedge' or (r.end == 'return' and r.ret is not None and rules.ret_shape(r.ret)[0] == 'Ok')
+            if any(e['kind'] == 'call' and is_read(('call', e['callee'])) for e in r.events):
+                n_reads += 1
+            if not goes_on:
+                continue
+            for t, v, _ in r.preds:
+                if t[0] != 'discr' or not sym.contains(t[1], is_read):
+                    continue
+                dv = sym.discr_variant(t, v)
+                inner = t[1]
+                if (dv == 'Err' and not (inner[0] == 'try')) or (dv == 'Break' and inner[0] == 'try' and not sym.contains(inner, lambda x: isinstance(x, tuple) and x and x[0] == 'call' and str(x[1]).endswith(('::ok_or', '::ok_or_else')))):
+                    bad = 'a path goes on (%s) although the outcome of a word read was decided to be an error: the failed read is taken for the end of the data and the import succeeds with a truncated head' % r.end
+        n += 1
+        if bad:
+            ctx.bad('R2', role, b.defpath, bad, key=key, loc=rules.loc(b))
+        elif n_reads == 0:
+            ctx.unresolved('R2', role, b.defpath, 'no word read found', key=key)
+        else:
+            ctx.ok('R2', role, b.defpath, 'no continuing path carries an `Err` decision of a read', key=key)
+    ctx.floor('R2', 'floor: ANS import loops', ANS, n, 2, 'only %d import loops found' % n, key='R2/floor/import-read-errors')
+
+
 def run(ctx):
     F = ctx.F
     check_same_source(ctx, F)
@@ -435,6 +477,7 @@ def run(ctx):
     check_no_hand_rolled_chunking(ctx, F)
     check_marker_pairing(ctx, F)
     check_refill_threshold(ctx, F)
+    check_import_read_errors(ctx, F)
     _fb, helper = anchors.ans_import_loops(F)
     check_top_word_nonzero(ctx, F, helper, ANS + '::from_compressed', 'into_compressed')
     import props.C18 as c18
